@@ -61,6 +61,8 @@ BEHAVIOURS = {
     "load-rel": "import importlib.util\n_sp = importlib.util.spec_from_file_location('rv_rel_helper', 'helper_mod.py')\n_hm = importlib.util.module_from_spec(_sp)\n_sp.loader.exec_module(_hm)\n",
     "chdir-up": "os.chdir('../../')\n",
     "load-rel-then-leave": "import importlib.util\n_sp = importlib.util.spec_from_file_location('rv_rel_helper', 'helper_mod.py')\n_hm = importlib.util.module_from_spec(_sp)\n_sp.loader.exec_module(_hm)\nos.chdir('../../')\n",
+    # what `import six` (and vendoring / lazy-import shims) do: an import finder of the script's own is installed
+    "meta-path-append": "class _RvScriptFinder(object):\n    def find_spec(self, *a, **k):\n        return None\n    def find_module(self, *a, **k):\n        return None\nsys.meta_path.append(_RvScriptFinder())\n",
     "thread": "import threading\n_t = threading.Thread(target=lambda: None)\n_t.start()\n_t.join()\n",
 }
 EXITS = ["sys.exit(0)", "sys.exit(3)", "os._exit(1)", "raise RuntimeError('boom')", "raise SystemExit(2)",
@@ -86,6 +88,9 @@ def gen_spec(rng, behaviours=False, allow_pyproject=True):
         spec["marker_extra"] = {":python_version < '3'": ["futures"]}
     if rng.random() < 0.2:
         spec["nested_setup"] = True
+    if spec["extras"] and rng.random() < 0.3:
+        # setup(extras_require={"x": "one-requirement"}) / {"x": "first\nsecond"}: a string where a list is usual
+        spec["extras_as_text"] = True
     if rng.random() < 0.12:
         spec["latin1"] = True          # a legal setup.py that is not UTF-8 (coding line + accented author name)
     if behaviours:
@@ -177,6 +182,8 @@ def _setup_py(spec):
             kw.append("install_requires=requires")
             extras = dict(spec["extras"])
             extras.update(spec.get("marker_extra", {}))
+            if spec.get("extras_as_text"):
+                extras = {e: "\n".join(rs) for e, rs in extras.items()}
             if extras:
                 kw.append("extras_require=%r" % extras)
         kw.append("packages=[%r]" % p)
